@@ -241,7 +241,11 @@ impl Opcode for JumpI {
 
                 // If it is an error that only affects the potential _target_ thread, we need to
                 // store it and continue execution on the current thread.
-                vm.store_error(result);
+                // In permissive mode a bad jump target is not a reason for the analysis to
+                // fail, exactly as for an unconditional jump
+                if !vm.config().permissive_errors {
+                    vm.store_error(result);
+                }
                 Ok(())
             }
         }
